@@ -8,7 +8,7 @@ VERIF = os.path.dirname(os.path.dirname(os.path.abspath(__file__)))
 SETUP = ("cd /verif/harness && cp /repo/go.sum . && GOTOOLCHAIN=local GOFLAGS=-mod=mod GOPROXY=off GOSUMDB=off "
          "go1.26.8 build -tags verif -o /dev/null ./ && cd /verif/specs && for f in *.tla; do tla-sany $f >/dev/null || exit 1; done")
 
-HOOK_COMMITS = ["6a98493", "56af79a", "d192d5e", "0a4b608"]
+HOOK_COMMITS = ["6a98493", "56af79a", "d192d5e", "0a4b608", "54206e2"]
 
 # property -> dict(level, text, note, technique, design_ref)
 CHECKS = {
